@@ -21,6 +21,9 @@ ID = "C17"
 # ---- tolerances (each from the property text / DESIGN C17 "Tol")
 FEE_TOL_BPS = 1  # "equals the Vault's fee-basis-points rule ... to within one basis point"
 FLOOR_UNITS = 1  # "1 wei-unit on floor steps": every round-down step may differ by one unit of its own quantity
+FRONTIER_BAND_WEI = 2  # the rule's improvement test compares two distances to the target; each carries the target's floor step,
+#                         so within 2 USDG-wei of the frontier either branch is accepted (three-valued verdict)
+V1_REWARD_REL = Fraction(4, 2**52)  # the emission (`interval`) is a float64 column; read_csv's fast float parser is accurate to 1 ulp
 DEC_BAND = Fraction(1, 10**30)  # demeter computes in Decimal with 35 significant digits; 5 digits of head-room
 V2_REL = Fraction(1, 10**12)  # "1e-12 relative on v2 floats"
 V2_CANCEL_ULPS = 64  # float64 cancellation in |f*d0^2 - f*d1^2| and in d = |A - B|: absolute error <= a few ulps of f*max(A,B)^2
@@ -314,7 +317,7 @@ class GmxOracle(Oracle):
         # the rule is stated per bar of the data; whether a resampled (k-minute) bar pays 1x or kx that is not stated
         allowed = [per_min] if self.k == 1 else [per_min, per_min * self.k]
         scale = max(abs(Fraction(Decimal(m.reward))), abs(per_min) * self.k)
-        ok = any(abs(got - e) <= DEC_BAND * scale for e in allowed)
+        ok = any(abs(got - e) <= DEC_BAND * scale + V1_REWARD_REL * abs(e) for e in allowed)
         sim.count("probe:reward_bar_with_holding" if glp > 0 else "probe:reward_bar_without_holding")
         if glp != 0 and per_min != 0:
             sim.state(("v1", "reward", "held_pos" if glp > 0 else "held_neg", self.k > 1))
@@ -401,8 +404,11 @@ class GmxOracle(Oracle):
         got = Fraction(Decimal(res)) * 10**R.GLP_DECIMALS
         rec["minted"] = Fraction(Decimal(res))
         rec["paid"] = Fraction(amt)
-        lo = R.mint_glp(st, tok, wei, +FEE_TOL_BPS)["glp_wei"]
-        hi = R.mint_glp(st, tok, wei, -FEE_TOL_BPS)["glp_wei"]
+        cands = R.fee_candidates(st.usdg[tok], ref["usdg_delta"], st.target(tok), True, FRONTIER_BAND_WEI)
+        if len(cands) > 1:
+            sim.count("probe:v1_inside_frontier_band")
+        lo = min(R.mint_glp(st, tok, wei, +FEE_TOL_BPS, c)["glp_wei"] for c in cands)
+        hi = max(R.mint_glp(st, tok, wei, -FEE_TOL_BPS, c)["glp_wei"] for c in cands)
         aum_usdg = st.aum_in_usdg()
         ratio = Fraction(st.glp_supply, aum_usdg) if aum_usdg else Fraction(1)
         # one unit per floor step: after-fee token wei, USDG before and after the decimals adjustment, GLP wei
@@ -415,7 +421,10 @@ class GmxOracle(Oracle):
         else:
             if got.denominator != 1:
                 sim.violate("c17.v1_round_down", f"buy_glp:fractional_glp_wei:{dc}", **detail)
-            elif _integral_fee(st, tok, ref) and abs(got - ref["glp_wei"]) <= slack:
+            elif (not R.in_frontier_band(st.usdg[tok], ref["usdg_delta"], st.target(tok), True, FRONTIER_BAND_WEI) and _integral_fee(st, tok, ref)
+                  and abs(got - ref["glp_wei"]) <= slack and max(hi - ref["glp_wei"], ref["glp_wei"] - lo) > 2 * slack):
+                # (the last condition: one basis point of this amount is well above the floor-step slack, so "within the
+                #  slack of the reference" means the same whole-bp fee was applied and only the rounding direction is left)
                 exact = R.mint_glp_exact(st, tok, wei, ref["fee_bps"])
                 sim.count("probe:v1_round_down_checked")
                 if got > exact * (1 + DEC_BAND):
@@ -464,15 +473,19 @@ class GmxOracle(Oracle):
         if _on_frontier(st, tok, ref["usdg"], False):
             sim.count("probe:v1_next_diff_equals_initial_diff")
         got = Fraction(Decimal(res)) * 10**d
-        lo = R.redeem_glp(st, tok, glp_wei, +FEE_TOL_BPS)["out_wei"]
-        hi = R.redeem_glp(st, tok, glp_wei, -FEE_TOL_BPS)["out_wei"]
+        cands = R.fee_candidates(st.usdg[tok], ref["usdg"], st.target(tok), False, FRONTIER_BAND_WEI)
+        if len(cands) > 1:
+            sim.count("probe:v1_inside_frontier_band")
+        lo = min(R.redeem_glp(st, tok, glp_wei, +FEE_TOL_BPS, c)["out_wei"] for c in cands)
+        hi = max(R.redeem_glp(st, tok, glp_wei, -FEE_TOL_BPS, c)["out_wei"] for c in cands)
         # one unit per floor step: USDG wei (in token wei), redemption, decimals adjustment, after-fee amount
         slack = FLOOR_UNITS * (3 + Fraction(R.PRICE_PRECISION * 10**d, st.price[tok] * 10**18))
         detail = dict(token=tok, decimals=d, glp=_f(g), got_out_wei=_f(got), want_out_wei=ref["out_wei"], fee_bps=ref["fee_bps"], branch=ref["branch"],
                       lo=lo, hi=hi, glp_supply=st.glp_supply, aum=st.aum, price=st.price[tok])
         if got < lo - slack or got > hi + slack:
             sim.violate("c17.v1_redeem_amount", f"sell_glp:redeem_amount:{ref['branch']}:{dc}", **detail)
-        elif _integral_fee(st, tok, ref, sell_usdg=ref["usdg"]) and abs(got - ref["out_wei"]) <= slack:
+        elif (not R.in_frontier_band(st.usdg[tok], ref["usdg"], st.target(tok), False, FRONTIER_BAND_WEI) and _integral_fee(st, tok, ref)
+              and abs(got - ref["out_wei"]) <= slack and max(hi - ref["out_wei"], ref["out_wei"] - lo) > 2 * slack):
             exact = R.redeem_glp_exact(st, tok, glp_wei, ref["fee_bps"])
             sim.count("probe:v1_round_down_checked")
             if got > exact * (1 + DEC_BAND):
@@ -503,7 +516,10 @@ class GmxOracle(Oracle):
         detail = dict(token=tok, usdg_delta=delta, initial=st.usdg[tok], target=st.target(tok), got=_f(got), want=bps)
         if got < 0 or got > R.MAX_FEE_BPS:
             sim.violate("c17.v1_fee_range", site, **detail)
-        if abs(got - bps) > FEE_TOL_BPS:
+        cands = R.fee_candidates(st.usdg[tok], delta, st.target(tok), inc, FRONTIER_BAND_WEI)
+        if len(cands) > 1:
+            sim.count("probe:v1_inside_frontier_band")
+        if all(abs(got - c) > FEE_TOL_BPS for c in cands):
             sim.violate("c17.v1_fee_rule", site, **detail)
 
     # ------------------------------------------------------------------------------------------------ v2
@@ -532,19 +548,22 @@ class GmxOracle(Oracle):
             sim.count("probe:v2_virtual_inventory_decides")
         got = Fraction(float(res.gm_amount))
         rec.update(minted=got, paid_usd=ref["paid_usd"], bonus_usd=ref["capped_positive_usd"], tol_usd=self._v2_tol_usd(cfg, ref))
-        tol_usd = V2_REL * (ref["paid_usd"] + abs(imp)) + self._v2_tol_usd(cfg, ref)
         per_usd = st.supply / st.pool_value
         detail = dict(long=str(call["long"]), short=str(call["short"]), got_gm=_f(got), want_gm=_f(ref["gm"]), impact_usd=_f(imp),
                       capped=ref["capped"], impact_pool=_f(st.impact_pool), pool_value=_f(st.pool_value), supply=_f(st.supply))
-        if ref["reverts"]:
+        noise = self._v2_tol_usd(cfg, ref)
+        cands = R.deposit_candidates(cfg, st, L, S, noise)
+        if len(cands) > 1:
+            sim.count("probe:v2_impact_sign_inside_noise_band")
+        if any(c["reverts"] for c in cands):
             sim.count("probe:v2_negative_impact_exceeds_amount")
             if got < 0:
                 sim.violate("c17.v2_mint_amount", "deposit:negative_mint", **detail)
         else:
-            if abs(got - ref["gm"]) > tol_usd * per_usd:
+            if all(abs(got - c["gm"]) > (V2_REL * (c["paid_usd"] + abs(c["impact"])) + noise) * per_usd for c in cands):
                 sim.violate("c17.v2_mint_amount", f"deposit:gm_amount:{sign}:{'capped' if ref['capped'] else 'uncapped'}", **detail)
             gi = Fraction(float(res.price_impact_usd))
-            if abs(gi - imp) > V2_REL * abs(imp) + self._v2_tol_usd(cfg, ref):
+            if all(abs(gi - c["impact"]) > V2_REL * abs(c["impact"]) + noise for c in cands):
                 sim.violate("c17.v2_price_impact", f"deposit:price_impact:{'crossover' if ref['crossover'] else 'same_side'}:{'virtual' if ref['virtual'] else 'pool'}",
                             got=_f(gi), **detail)
         # bookkeeping
@@ -552,7 +571,7 @@ class GmxOracle(Oracle):
             w1 = post["wallet"].get(tokname, Decimal(0))
             paid = Fraction(w0) - Fraction(w1)
             snapped = w1 == 0 and w0 != 0 and abs(Fraction(w0) - asked) < Fraction(1, 10**5) * abs(Fraction(w0))
-            if not snapped and abs(paid - asked) > V2_REL * asked:
+            if not snapped and abs(paid - asked) > V2_REL * asked + DEC_BAND * max(abs(Fraction(w0)), abs(Fraction(w1))):
                 sim.violate("c17.v2_bookkeeping", "deposit:wallet_delta", token=tokname, asked=_f(asked), paid=_f(paid))
         dh = post["held"][name] - self.pre["held"][name]
         if abs(dh - got) > V2_REL * max(abs(got), abs(self.pre["held"][name])):
@@ -589,7 +608,7 @@ class GmxOracle(Oracle):
             sim.violate("c17.v2_redeem_amount", "withdraw:short_amount", **detail)
         for tokname, out in ((self.mw[name]["long"], gl), (self.mw[name]["short"], gs)):
             w0, w1 = self.pre["wallet"].get(tokname, Decimal(0)), post["wallet"].get(tokname, Decimal(0))
-            if abs(Fraction(w1) - Fraction(w0) - out) > V2_REL * abs(out):
+            if abs(Fraction(w1) - Fraction(w0) - out) > V2_REL * abs(out) + DEC_BAND * max(abs(Fraction(w0)), abs(Fraction(w1))):
                 sim.violate("c17.v2_bookkeeping", "withdraw:wallet_delta", token=tokname, returned=_f(out), delta=_f(Fraction(w1) - Fraction(w0)))
         if abs((held0 - post["held"][name]) - g) > V2_REL * max(abs(g), abs(held0)):
             sim.violate("c17.v2_bookkeeping", "withdraw:gm_delta", gm=_f(g), before=_f(held0), after=_f(post["held"][name]))
@@ -618,7 +637,7 @@ class GmxOracle(Oracle):
             return
         for n, (lo, hi) in self.reward_expected.items():
             got = Fraction(Decimal(sim.markets[n].reward))
-            band = DEC_BAND * max(abs(lo), abs(hi), abs(got)) * max(1, self.bars_seen)
+            band = (DEC_BAND * max(1, self.bars_seen) + V1_REWARD_REL) * max(abs(lo), abs(hi), abs(got))
             if not (min(lo, hi) - band <= got <= max(lo, hi) + band):
                 sim.violate("c17.v1_reward", "finish:not_additive", got=_f(got), want_lo=_f(lo), want_hi=_f(hi))
 
@@ -646,7 +665,7 @@ def _on_frontier(st, tok, delta, increment):
     return abs(nxt - t) == abs(i - t) and delta != 0
 
 
-def _integral_fee(st, tok, ref, sell_usdg=None):
+def _integral_fee(st, tok, ref):
     """True when the fee rule yields a whole number of basis points without its own floor (so an implementation that keeps
     fractional basis points in the rebate must still land on exactly the reference amount)."""
     if ref["branch"] != "rebate":
